@@ -716,7 +716,7 @@ func (s *Service) ClientClose(client *ClientService) {
 		return
 	}
 
-	for i := range s.clients {
+	for i := len(s.clients) - 1; i >= 0; i-- {
 		if s.clients[i] == client {
 
 			// remove registered agents
